@@ -49,7 +49,7 @@ CONSTRAINT Leaf
 CHECK_DEADLOCK FALSE
 """
 
-CONTROL = {"Root", "Commit", "Reload", "Copy", "CopySwap", "Flush", "Restart"}
+CONTROL = {"Root", "Commit", "Reload", "Copy", "CopySwap", "Flush", "Restart", "ReloadOld"}
 
 
 def nontrivial(beh):
@@ -182,7 +182,8 @@ def generate(ctx, unrepaired):
     quick = ctx.quick
     behs = []
     fix_now = [f for f in ALL_FIX if f not in unrepaired]
-    depths = {"macct": 7, "val": 6, "recs": 6, "disk": 9} if quick else {"macct": 8, "val": 7, "recs": 7, "disk": 11}
+    depths = ({"macct": 7, "val": 6, "recs": 6, "disk": 9, "slots": 9, "old": 8, "recs2": 8} if quick
+              else {"macct": 8, "val": 7, "recs": 7, "disk": 11, "slots": 10, "old": 9, "recs2": 9})
     ok = True
     for alpha, d in depths.items():
         m = ctx.tlc_must("StateCommit", M_CFG % (d, alpha, fixset(ALL_FIX)), name="M_design_" + alpha, timeout=2400, coverage=not quick)
@@ -210,8 +211,9 @@ def generate(ctx, unrepaired):
             ctx.note("deviation '%s' is present in the code but the as-coded design run found no counterexample" % dev)
     ncex = len(behs)
     # "disk" and "deleg2" start from a seeded state: a prelude of 2 / 5 operations is the beginning of every behaviour
-    gd = ({"acct": 4, "val": 4, "recs": 4, "disk": 2 + 5, "deleg2": 5 + 3} if quick
-          else {"acct": 5, "val": 5, "recs": 5, "disk": 2 + 6, "deleg2": 5 + 4})
+    # "slots", "old", "recs2": a prelude of 3 / 2 / 3 operations executed by the model itself
+    gd = ({"acct": 4, "val": 4, "recs": 4, "disk": 2 + 5, "deleg2": 5 + 3, "slots": 3 + 4, "old": 2 + 4, "recs2": 3 + 3} if quick
+          else {"acct": 5, "val": 5, "recs": 5, "disk": 2 + 6, "deleg2": 5 + 4, "slots": 3 + 5, "old": 2 + 5, "recs2": 3 + 5})
     for alpha, d in gd.items():
         g = ctx.tlc_must("StateCommit", G_CFG % (d, alpha, fixset(fix_now)), name="G1_%s_%d" % (alpha, d), timeout=2400)
         behs += [v["h"] for v in g.printed if isinstance(v, dict) and v.get("kind") == "B"]
@@ -285,6 +287,9 @@ def run(ctx):
         "node database: Flush = TrieDB().Commit(root, false) of the three roots of the last Commit (WriteBlockWithState); "
         "GC = Dereference of older never-flushed roots + Cap(0); Restart = state.New(last flushed roots) over a fresh "
         "state.NewDatabase on the same disk; every Flush is also probed from a fresh cache without disturbing the behaviour",
+        "root triples are filed both under the dump taken before the root computation and under the one taken after it; "
+        "ReloadOld(k) = state.New(k-th last committed roots, k <= 4) through the same Database as a read-only probe; "
+        "AddRecordOther = AddStakingRecord on the most recent frozen object (both sides of a copy go on recording)",
         "copies: the object nobody writes to is dumped again after EVERY later operation and at the end; no Snapshot/Revert here (C09)",
     ]
     unrepaired = detect_unrepaired(ctx)
@@ -299,7 +304,7 @@ def run(ctx):
         raise vlib.Undecided("the intended design violates %s but the counterexample did not reproduce on the real code: "
                              "specification error" % ctx.cov["design_violation"])
     fired = ctx.cov.get("clauses_fired", {})
-    zero = [k for k in ("DiskReopens", "Reopens", "CopyEqs", "Indeps", "RootObsN", "RootsCompared") if not fired.get(k)]
+    zero = [k for k in ("OldReopens", "BothSides", "DiskReopens", "Reopens", "CopyEqs", "Indeps", "RootObsN", "RootsCompared") if not fired.get(k)]
     if zero:
         raise vlib.Undecided("vacuous clauses (never evaluated): %s" % zero)
 
